@@ -423,7 +423,7 @@ func c05BasisLeaf(name string) fFilter {
 	if vBound("full-basis", 0, 1) == 1 {
 		return c05Leaf(vChoice(name, 0, c05NumLeaves-1))
 	}
-	basis := []int{0, 1, 2, 5, 7, 8}
+	basis := []int{0, 1, 2, 5, 7, 8, 9}
 	return c05Leaf(basis[vChoice(name, 0, len(basis)-1)])
 }
 
